@@ -6,6 +6,12 @@ namespace ob = ompl::base;
 namespace og = ompl::geometric;
 using namespace plan;
 
+#ifdef VF_C19P
+#define KP "C19/planner"
+#else
+#define KP "C01"
+#endif
+
 #define VF_HAS_PROCESS_INIT
 void vf::process_init()
 {
@@ -15,7 +21,11 @@ void vf::process_init()
 vf::Config vf::config()
 {
     Config c;
+#ifdef VF_C19P
+    c.property = "C19";  // part 2 of C19: the internally threaded planners under the C01 oracle (ASan flavor), generated thread counts
+#else
     c.property = "C01";
+#endif
     c.maxLen = 400;
     c.batch = 1;  // fork per case: RNG::setSeed really precedes every generator, a hang or crash names exactly one case
     c.caseTimeout = 30;
@@ -26,7 +36,16 @@ vf::Config vf::config()
 void vf::run_case(Src &s, Ctx &c)
 {
     const auto &R = registry();
+#ifdef VF_C19P
+    std::vector<int> thr;
+    for (size_t i = 0; i < R.size(); ++i)
+        if (R[i].threaded)
+            thr.push_back((int)i);
+    const PlannerInfo &pi = R[thr[s.pick(thr.size())]];
+    const unsigned nthreads = (unsigned)s.in(2, 6);
+#else
     const PlannerInfo &pi = R[s.pick(R.size())];
+#endif
     c.context(pi.name);
     unsigned seed = 1 + (unsigned)s.u(0, 1000000);
     ompl::RNG::setSeed(seed);
@@ -46,6 +65,15 @@ void vf::run_case(Src &s, Ctx &c)
     double b = s.weighted({1, 8}) == 0 ? 0 : std::exp(s.real(0, std::log(4000.0)));
     long budget = (long)(b * pi.budgetScale);
     ob::PlannerPtr pl = pi.make(P->si);
+#ifdef VF_C19P
+    if (auto *p = dynamic_cast<og::pRRT *>(pl.get()))
+        p->setThreadCount(nthreads);
+    if (auto *p = dynamic_cast<og::pSBL *>(pl.get()))
+        p->setThreadCount(nthreads);
+    if (auto *p = dynamic_cast<og::CForest *>(pl.get()))
+        p->setNumThreads(nthreads);
+    c.count("threads:" + std::to_string(nthreads));
+#endif
     double range = s.weighted({3, 3}) == 0 ? 0 : s.logreal(0.2, 6);
     if (range > 0)
         setParamIfPresent(pl, "range", range);
@@ -85,7 +113,7 @@ void vf::run_case(Src &s, Ctx &c)
             return;
         }
         // an exception that escapes solve() after a solution was reported is not a rejection; whatever was reported is still judged below
-        c.failOrKnown("C01/exception-after-solution" + pkey,
+        c.failOrKnown(KP "/exception-after-solution" + pkey,
                       vf::fmt("%s threw '%s' out of solve() after having reported %zu solution(s)", pi.name, rejectWhy.c_str(), nsol));
         st = P->pdef->hasApproximateSolution() ? ob::PlannerStatus::APPROXIMATE_SOLUTION : ob::PlannerStatus::EXACT_SOLUTION;
     }
@@ -95,53 +123,53 @@ void vf::run_case(Src &s, Ctx &c)
     // --- clause 1: status / problem-definition coherence
     if (!solved)
     {
-        VCHECK(c, nsol == 0, "C01/non-solution-status-with-path" + pkey, "%s returned %s but added %zu solution path(s)", pi.name, statusName(st), nsol);
+        VCHECK(c, nsol == 0, KP "/non-solution-status-with-path" + pkey, "%s returned %s but added %zu solution path(s)", pi.name, statusName(st), nsol);
         bool anyStart = false, anyGoal = false;
         for (bool okk : P->startOk)
             anyStart |= okk;
         for (bool okk : P->goalOk)
             anyGoal |= okk;
         if (st == ob::PlannerStatus::INVALID_START)
-            VCHECK(c, !anyStart, "C01/untruthful-INVALID_START" + pkey, "%s returned INVALID_START although a valid in-bounds start state exists", pi.name);
+            VCHECK(c, !anyStart, KP "/untruthful-INVALID_START" + pkey, "%s returned INVALID_START although a valid in-bounds start state exists", pi.name);
         if (st == ob::PlannerStatus::INVALID_GOAL)
             if (anyGoal && P->goalKind != 2)
                 // one root cause for every planner that uses the non-waiting PlannerInputStates::nextGoal(): it gives up after the first
                 // sampled goal state when that one is invalid
-                c.failOrKnown(!P->goalOk[0] ? std::string("C01/untruthful-INVALID_GOAL(first-goal-state-invalid)") : "C01/untruthful-INVALID_GOAL" + pkey,
+                c.failOrKnown(!P->goalOk[0] ? std::string(KP "/untruthful-INVALID_GOAL(first-goal-state-invalid)") : KP "/untruthful-INVALID_GOAL" + pkey,
                               vf::fmt("%s returned INVALID_GOAL although a valid, sampleable goal state exists", pi.name));
         if (st == ob::PlannerStatus::UNRECOGNIZED_GOAL_TYPE)
         {
             // pSBL accepts a GoalState only (pSBL.cpp: dynamic_cast<GoalState*>); every other planner accepts any sampleable goal
             bool truthful = P->goalKind == 2 || (std::string(pi.name) == "pSBL" && P->goalKind != 0);
-            VCHECK(c, truthful, "C01/untruthful-UNRECOGNIZED_GOAL_TYPE" + pkey, "%s returned UNRECOGNIZED_GOAL_TYPE for a sampleable GoalState(s) goal it supports", pi.name);
+            VCHECK(c, truthful, KP "/untruthful-UNRECOGNIZED_GOAL_TYPE" + pkey, "%s returned UNRECOGNIZED_GOAL_TYPE for a sampleable GoalState(s) goal it supports", pi.name);
         }
-        VCHECK(c, st != ob::PlannerStatus::CRASH, "C01/status-CRASH" + pkey, "%s returned CRASH", pi.name);
+        VCHECK(c, st != ob::PlannerStatus::CRASH, KP "/status-CRASH" + pkey, "%s returned CRASH", pi.name);
         c.nontrivial = P->scenario != SC_NORMAL;
         return;
     }
-    VCHECK(c, nsol > 0, "C01/solution-status-without-path" + pkey, "%s returned %s but the problem definition holds no solution path", pi.name, statusName(st));
+    VCHECK(c, nsol > 0, KP "/solution-status-without-path" + pkey, "%s returned %s but the problem definition holds no solution path", pi.name, statusName(st));
     auto *pg = dynamic_cast<og::PathGeometric *>(P->pdef->getSolutionPath().get());
-    VCHECK(c, pg != nullptr, "C01/not-geometric-path" + pkey, "solution path is not a PathGeometric");
-    VCHECK(c, pg->getStateCount() > 0, "C01/empty-path" + pkey, "%s reported a solution with no states", pi.name);
+    VCHECK(c, pg != nullptr, KP "/not-geometric-path" + pkey, "solution path is not a PathGeometric");
+    VCHECK(c, pg->getStateCount() > 0, KP "/empty-path" + pkey, "%s reported a solution with no states", pi.name);
     const ob::State *last = pg->getState(pg->getStateCount() - 1);
     const bool approxFlag = P->pdef->hasApproximateSolution();
     auto *goalRegion = dynamic_cast<ob::GoalRegion *>(P->pdef->getGoal().get());
     if (st == ob::PlannerStatus::EXACT_SOLUTION)
     {
-        VCHECK(c, !approxFlag, "C01/exact-status-approximate-flag" + pkey, "%s returned EXACT_SOLUTION but the reported solution is flagged approximate", pi.name);
+        VCHECK(c, !approxFlag, KP "/exact-status-approximate-flag" + pkey, "%s returned EXACT_SOLUTION but the reported solution is flagged approximate", pi.name);
         double dg = goalRegion->distanceGoal(last);
         if (!(P->pdef->getGoal()->isSatisfied(last)))
-            c.failOrKnown("C01/exact-but-goal-not-reached" + pkey,
+            c.failOrKnown(KP "/exact-but-goal-not-reached" + pkey,
                           vf::fmt("%s returned EXACT_SOLUTION but the last path state is %.6g from the goal (threshold %.6g)", pi.name, dg, P->threshold));
     }
     else
     {
-        VCHECK(c, approxFlag, "C01/approximate-status-exact-flag" + pkey, "%s returned APPROXIMATE_SOLUTION but the reported solution is not flagged approximate", pi.name);
+        VCHECK(c, approxFlag, KP "/approximate-status-exact-flag" + pkey, "%s returned APPROXIMATE_SOLUTION but the reported solution is not flagged approximate", pi.name);
         double diff = P->pdef->getSolutionDifference();
         double dg = goalRegion->distanceGoal(last);
         double tol = 1e-9 * (1 + dg) + (P->ps.kind == SP_SE3 ? 1e-4 : 0);
         if (!(std::fabs(diff - dg) <= tol))
-            c.failOrKnown("C01/approximate-difference-mismatch" + pkey,
+            c.failOrKnown(KP "/approximate-difference-mismatch" + pkey,
                           vf::fmt("%s: reported goal difference %.9g but the last path state is %.9g from the goal", pi.name, diff, dg));
     }
     // --- clauses 2-4 on the reported path
@@ -149,7 +177,7 @@ void vf::run_case(Src &s, Ctx &c)
     PathVerdict v = checkPath(*P, *pg, strict, pi.bidirectional || pi.optimizing || !pi.directedOk);
     c.stat("invalid-run/r", v.worstRun);
     if (!v.ok())
-        c.failOrKnown("C01/" + v.key + pkey, vf::fmt("%s on %s: %s [%s, %zu states]", pi.name, P->ps.name().c_str(), v.msg.c_str(), statusName(st), pg->getStateCount()));
+        c.failOrKnown(KP "/" + v.key + pkey, vf::fmt("%s on %s: %s [%s, %zu states]", pi.name, P->ps.name().c_str(), v.msg.c_str(), statusName(st), pg->getStateCount()));
     bool forced = P->scenario != SC_NORMAL;
     bool hadToAvoid = !straightLineFree(*P);
     c.count(hadToAvoid ? "solution:straight-line-blocked" : "solution:straight-line-free");
